@@ -448,6 +448,14 @@ func genIDs(t *rapid.T, n int) []int {
 		var id int
 		if oneIn(t, 15, "hugeID") {
 			id = rapid.IntRange(1, 999999999999999999).Draw(t, "id")
+		} else if len(ids) > 0 && oneIn(t, 8, "prefixID") {
+			// an earlier id is a decimal prefix of this one (7 and 71): a header cut inside
+			// the number names the other goroutine
+			if base := ids[rapid.IntRange(0, len(ids)-1).Draw(t, "prefixOf")]; base > 0 && base < 1<<40 {
+				id = base*10 + rapid.IntRange(0, 9).Draw(t, "prefixDigit")
+			} else {
+				continue
+			}
 		} else {
 			next += rapid.IntRange(1, 5).Draw(t, "idStep")
 			id = next
